@@ -74,6 +74,14 @@ func bpKeep(prefixes map[string]string) func(string) (string, bool) {
 
 func runBlockProcDedicated(run *ev.Run, c, k int) {
 	run.Count("dedicated-director-cases", 1)
+	// the borrowed directors stop at a block that did not complete ("cannot continue"); for this property that abort is
+	// the verdict
+	rig.AbortHook = func(br *rig.BlockRecord) {
+		km := run.KeyMap
+		run.KeyMap = nil
+		bpAbort(run, br)
+		run.KeyMap = km
+	}
 	switch k {
 	case 0:
 		run.KeyMap = bpKeep(map[string]string{
@@ -116,6 +124,26 @@ func runBlockProcDedicated(run *ev.Run, c, k int) {
 		run.Class("dedicated-director", "random")
 		runRandom(run, c)
 	}
+}
+
+// bpAbort reports an abort of begin/end block processing.
+func bpAbort(run *ev.Run, br *rig.BlockRecord) {
+	pi := br.BeginPanic
+	phase := "begin-block"
+	if pi == nil {
+		pi, phase = br.EndPanic, "end-block"
+	}
+	mod, val, stack := "unknown", fmt.Sprint(br.FinalErr), ""
+	if pi != nil {
+		mod, val, stack = pi.Module, pi.Value, trunc(pi.Stack, 4000)
+		if mod == "" {
+			mod = "non-irismod"
+		}
+	} else {
+		phase = "finalize-block"
+	}
+	run.Violation(fmt.Sprintf("C13:%s-aborted:%s:%s", phase, mod, errClass(fmt.Errorf("%s", val))), map[string]any{"height": br.Height, "panic": val, "stack": stack},
+		"%s of height %d aborted in module %s: %s", phase, br.Height, mod, trunc(val, 300))
 }
 
 func runBlockProc(run *ev.Run, c int) {
@@ -223,22 +251,7 @@ func runBlockProc(run *ev.Run, c int) {
 		}
 		// 1. aborts
 		if br.BeginPanic != nil || br.EndPanic != nil || br.FinalErr != nil {
-			pi := br.BeginPanic
-			phase := "begin-block"
-			if pi == nil {
-				pi, phase = br.EndPanic, "end-block"
-			}
-			mod, val, stack := "unknown", fmt.Sprint(br.FinalErr), ""
-			if pi != nil {
-				mod, val, stack = pi.Module, pi.Value, trunc(pi.Stack, 4000)
-				if mod == "" {
-					mod = "non-irismod"
-				}
-			} else {
-				phase = "finalize-block"
-			}
-			run.Violation(fmt.Sprintf("C13:%s-aborted:%s:%s", phase, mod, errClass(fmt.Errorf("%s", val))), map[string]any{"height": br.Height, "panic": val, "stack": stack},
-				"%s of height %d aborted in module %s: %s", phase, br.Height, mod, trunc(val, 300))
+			bpAbort(run, br)
 			return
 		}
 		// 2. queues against objects, on the committed state
